@@ -4,3 +4,4 @@ open PgmVerif
 #print axioms PgmVerif.C13_do_acyclic
 #print axioms PgmVerif.C13_parents_adjustment
 #print axioms PgmVerif.C13_parent_adjustment_exact
+#print axioms PgmVerif.C13_do_compose_graph
